@@ -19,6 +19,16 @@ Theorem C13_refuted_creation_window :
             /\ (exists x, nth_error (trackers s) 0 = Some x /\ t_swept x = true).
 Proof. exact creation_window_leaks. Qed.
 Print Assumptions C13_refuted_creation_window.
+(* a death between the two steps of the finalizer (SemCollect without SemForget) is covered by the theorem above because the
+   finalizer, as generated from the source, unlinks first: a name whose UNREGISTER was sent never exists any more *)
+Theorem C13_unregistered_is_gone :
+  forall s j y, reachable s -> nth_error (sems s) j = Some y -> s_stage y = Unregistered -> s_exists y = false.
+Proof. intros s j y Hr. apply (proj2 (reachable_inv12 s Hr)). Qed.
+Print Assumptions C13_unregistered_is_gone.
+Example C13_finalizer_window :
+  match run init [SemCreate 0; SemRegister 0; SemGuard 0; SemCollect 0; Die 0; TrackerEOF 0] with
+  | Some s => map s_exists (sems s) = [false] | None => False end.
+Proof. vm_compute. reflexivity. Qed.
 Theorem C13_structure :
   semlock_registers_then_installs_finalizer = true /\ semlock_cleanup_unlinks_then_unregisters = true
   /\ semlock_copies_do_not_register = true /\ semlock_names_carry_creator_pid = true.
